@@ -26,7 +26,7 @@
 #define C_LSE_FWD   400.0    /* |x - x*|/|x*|                   in units of kappa n eps            */
 #define C_LSE_RES   400.0    /* |A x - b|                       in units of n eps (|A||x| + |b|)   */
 #define C_OLS      1000.0    /* |beta - beta*|                  in units of kappa^2 n eps (|beta*| + |y|/smax) */
-#define C_PINV     2000.0    /* Penrose residuals, |G - G*|/|G*| in units of kappa^2 n eps (normal equations) */
+#define C_PINV     5000.0    /* Penrose residuals, |G - G*|/|G*| in units of kappa^2 n eps (normal equations) */
 #define C_EIG_RES   400.0    /* |A v - lambda v|/|v|            in units of n eps |A|_F            */
 #define C_EIG_VAL   400.0    /* |lambda - lambda*|              in units of n eps |A|_F            */
 #define C_SVD      2000.0    /* |U S V^T - A|, |s - s*|, |U^T U - I| in units of max(m,n) eps smax */
